@@ -11,6 +11,12 @@
 (*   C02: status >= 400 => tree unchanged (independent of Outcomes)        *)
 (*   C03: nothing outside the root changed, no canary secret disclosed     *)
 (*   C17: no host path in the response                                     *)
+(* "cstep" lines come from client-driven histories (clihist): the request  *)
+(* was produced by a webdav.Client call.  Besides the rules above, applied *)
+(* to the request actually sent,                                           *)
+(*   C05: the request sent is the one the call denotes (WireOK), the call  *)
+(*        fails iff the server refused, and what Stat / ReadDir / Open     *)
+(*        return is exactly the model tree's content (ResultOK).           *)
 (***************************************************************************)
 EXTENDS DavTree, Json, TLCExt, IOUtils
 
@@ -86,6 +92,45 @@ Explained(pre, e, post) ==
      /\ post = o.t
      /\ (o.ok => ReportOK(pre, e.req, e.rep))
 
+\* ---- C05 on client-driven steps
+OkSt(st) == st >= 200 /\ st <= 299
+OwSem(o) == IF o = "F" THEN "F" ELSE "T"
+CopyDepthSem(d) == IF d = "0" THEN "0" ELSE "deep"
+\* the checks in order; the first failing one names the divergence
+WireChecks(i, w, sent) ==
+  << <<"requests-sent", sent = 1>>,
+     <<"method", w.m = i.m>>,
+     <<"target", w.pflag = "ok" /\ Normalize(w.p) = Normalize(i.p)>>,
+     <<"conditional-header", w.ifm = "unset" /\ w.ifnm = "unset">>,
+     <<"content", i.m = "PUT" => w.c = i.c>>,
+     <<"destination", i.m \in {"COPY", "MOVE"} => w.dform \in {"path", "abs"} /\ Normalize(w.dp) = Normalize(i.dp)>>,
+     <<"overwrite", i.m \in {"COPY", "MOVE"} => w.ow \in {"absent", "T", "F"} /\ OwSem(w.ow) = OwSem(i.ow)>>,
+     <<"depth", /\ (i.m = "COPY" => w.depth \in {"absent", "0", "infinity"} /\ CopyDepthSem(w.depth) = CopyDepthSem(i.depth))
+                /\ (i.m = "MOVE" => w.depth \in {"absent", "infinity"})
+                /\ (i.m = "PROPFIND" => w.depth = i.depth)>>,
+     <<"propfind-body", i.m = "PROPFIND" => w.pform = "fileinfo">>,
+     <<"mkcol-body", i.m = "MKCOL" => w.ctype = "none">> >>
+ItemsOK(t, p, depth, items) ==
+  LET S == Scope(t, p, depth) IN
+  /\ p \in DOMAIN t
+  /\ Len(items) = Cardinality(S)
+  /\ \A j \in 1..Len(items) : items[j].hflag = "ok"
+  /\ {Normalize(items[j].p) : j \in 1..Len(items)} = S
+  /\ \A j \in 1..Len(items) :
+       LET q == Normalize(items[j].p) IN
+       q \in DOMAIN t => /\ items[j].k = t[q].k
+                         /\ (t[q].k = "f" => items[j].len = t[q].n /\ items[j].etag # "" /\ items[j].mtime)
+ResultChecks(pre, e) ==
+  LET i == e.intent
+      c == e.cres
+      p == Normalize(i.p) IN
+  << <<"error-iff-refused", c.err = ~OkSt(e.st)>>,
+     <<"open-content", (~c.err /\ i.m = "GET") => (p \in DOMAIN pre /\ pre[p].k = "f" /\ c.body = pre[p].d)>>,
+     <<"listing", (~c.err /\ i.m = "PROPFIND") => ItemsOK(pre, p, i.depth, c.items)>> >>
+FirstFail(cs) == IF \A j \in 1..Len(cs) : cs[j][2] THEN "" ELSE cs[CHOOSE j \in 1..Len(cs) : ~cs[j][2] /\ \A k \in 1..(j - 1) : cs[k][2]][1]
+ClientWhy(pre, e) == LET w == FirstFail(WireChecks(e.intent, e.req, e.cres.sent)) IN
+                     IF w # "" THEN "wire:" \o w ELSE LET r == FirstFail(ResultChecks(pre, e)) IN IF r # "" THEN "result:" \o r ELSE ""
+
 JInit == l = 1 /\ bad = 0 /\ base = (Root :> Coll) /\ cur = (Root :> Coll) /\ tagof = << >>
 
 StepTree(e) ==
@@ -99,7 +144,7 @@ StepSkipped(e) ==
   /\ base' = base /\ bad' = bad /\ tagof' = << >>
 
 StepReq(e) ==
-  /\ e.k = "step" /\ e.skip = ""
+  /\ e.k \in {"step", "cstep"} /\ e.skip = ""
   /\ LET pre == IF e.from = "base" THEN base ELSE cur
          post == IF e.same THEN pre ELSE ToTree(e.post)
          c01 == ~e.panic /\ Explained(pre, e, post)
@@ -110,7 +155,9 @@ StepReq(e) ==
          ann == IF e.from = "base" THEN {} ELSE Ann(e)
          c04 == TagsAgree(kept, ann)
          sig == Sig(pre, e.req, e.st, post)
-         nb == (IF c01 THEN 0 ELSE 1) + (IF c02 THEN 0 ELSE 1) + (IF c03 THEN 0 ELSE 1) + (IF c17 THEN 0 ELSE 1) + (IF c04 THEN 0 ELSE 1)
+         why05 == IF e.k = "cstep" THEN ClientWhy(pre, e) ELSE ""
+         c05 == why05 = ""
+         nb == (IF c01 THEN 0 ELSE 1) + (IF c02 THEN 0 ELSE 1) + (IF c03 THEN 0 ELSE 1) + (IF c17 THEN 0 ELSE 1) + (IF c04 THEN 0 ELSE 1) + (IF c05 THEN 0 ELSE 1)
      \* NOTE: the printing disjunctions must come after every primed variable is assigned; before that TLC
      \* treats "c \/ PrintT(..)" as an action-level disjunction and explores (prints) both branches.
      IN /\ cur' = post
@@ -122,6 +169,7 @@ StepReq(e) ==
         /\ (c03 \/ PrintT("REJECT|" \o ToString(l) \o "|" \o "C03 " \o sig \o " outside=" \o e.outside \o (IF e.secret THEN " secret" ELSE "")))
         /\ (c17 \/ PrintT("REJECT|" \o ToString(l) \o "|" \o "C17 " \o sig))
         /\ (c04 \/ PrintT("REJECT|" \o ToString(l) \o "|" \o "C04 tag-changed-without-write " \o sig))
+        /\ (c05 \/ PrintT("REJECT|" \o ToString(l) \o "|" \o "C05 client " \o e.cres.op \o " " \o why05 \o " " \o Sig(pre, e.intent, e.st, post)))
 
 JNext == /\ l <= Len(Obs)
          /\ l' = l + 1
